@@ -24,7 +24,7 @@ ASSUMPTIONS = ['only index and value forms used by upstream tests/docstrings are
                'reads that leave every selected row non-empty',
                'row reads are views by design, so write-through is exercised on a row fetched after the last structural change',
                'values keep the dtype of the array (no float written into an integer array)']
-REACH_EXPECTED = ['op_compare_lt', 'op_compare_ne', 'op_truediv', 'op_floordiv', 'op_mod', 'op_pow', 'op_mod_reflected', 'op_bitwise', 'op_reads2d', 'op_writes2d', 'op_helpers', 'construct_from_2d_block', 'row_assign_wider_dtype', 'introw_general_slice', 'op_rowslice_col', 'out_of_row_write_rejected', 'op_elem', 'op_row_same', 'op_row_newlen', 'op_introw_slice', 'op_slice2d', 'op_fancy', 'op_fancy_int', 'op_mask',
+REACH_EXPECTED = ['rows_traded_lengths', 'op_stale_mask', 'mask_of_another_layout', 'append_wider_dtype', 'op_iterate_mutating', 'op_rejected_write', 'op_compare_lt', 'op_compare_ne', 'op_truediv', 'op_floordiv', 'op_mod', 'op_pow', 'op_mod_reflected', 'op_bitwise', 'op_reads2d', 'op_writes2d', 'op_helpers', 'construct_from_2d_block', 'row_assign_wider_dtype', 'introw_general_slice', 'op_rowslice_col', 'out_of_row_write_rejected', 'op_elem', 'op_row_same', 'op_row_newlen', 'op_introw_slice', 'op_slice2d', 'op_fancy', 'op_fancy_int', 'op_mask',
                   'op_mask_empty', 'op_rowblock', 'op_append_rows', 'op_append_ra', 'op_aug_scalar', 'op_aug_ragged', 'op_binary',
                   'env_source_mutated', 'env_lengths_mutated', 'env_result_mutated', 'env_write_through', 'env_selection_mutated', 'rect_to_ragged', 'ragged_to_rect', 'multidim_elements',
                   'out_of_row_rejected']
@@ -66,6 +66,8 @@ class Machine:
         self.t = ctx.tape
         self.hist = []
         self.mutations = 0
+        self.stop = False
+        self.kept_mask = None
 
     def bad(self, cls, msg):
         raise SimViolation(cls, '%s | history: %s' % (msg, self.hist[-6:]))
@@ -223,8 +225,8 @@ class Machine:
         lens = [len(r) for r in rows]
         was_rect = len(set(lens)) == 1
         ops1d = ('elem', 'row_same', 'row_newlen', 'introw_slice', 'slice2d', 'rowslice_col', 'fancy', 'fancy_int', 'mask', 'rowblock', 'append',
-                 'aug', 'binary', 'write_through', 'elem', 'row_same', 'child_write', 'compare', 'divlike', 'bitwise', 'reads2d', 'writes2d', 'helpers')
-        opsnd = ('row_same', 'row_newlen', 'append', 'aug', 'binary', 'rowblock')
+                 'aug', 'binary', 'write_through', 'elem', 'row_same', 'child_write', 'compare', 'divlike', 'bitwise', 'reads2d', 'writes2d', 'helpers', 'iterate_mutating', 'rejected_write', 'stale_mask')
+        opsnd = ('row_same', 'row_newlen', 'append', 'aug', 'binary', 'rowblock', 'iterate_mutating')
         op = t.choice(ops1d if self.edim is None else opsnd)
         a = self.a
         V = self.vals
@@ -405,7 +407,15 @@ class Machine:
             newL = [t.irange(1, 4) for _ in range(m)]
             block = [V.take((L,) + es) for L in newL]
             as_ra = t.flag()
-            self.hist.append(('append', newL, as_ra))
+            if self.dtype == 'int64' and self.edim is None and t.flag(1, 5):
+                # rows the integer array cannot hold: the whole array is promoted, as np.concatenate would
+                block = [b.astype(np.float64) + 0.5 for b in block]
+                self.dtype = 'float64'
+                self.vals.dtype = np.dtype('float64')
+                for k2 in range(len(rows)):
+                    rows[k2] = rows[k2].astype(np.float64)
+                self.ctx.hit('append_wider_dtype')
+            self.hist.append(('append', newL, as_ra, str(block[0].dtype)))
             self.sut(a.append, self.sut(self.ra.RaggedArray, [b.copy() for b in block]) if as_ra else [b.copy() for b in block])
             rows.extend(b.copy() for b in block)
             self.ctx.hit('op_append_ra' if as_ra else 'op_append_rows')
@@ -598,6 +608,102 @@ class Machine:
                 self.bad('repr_empty', 'repr / str returned %r' % (txt,))
             self.hist.append(('helpers', float(thr)))
             self.ctx.hit('op_helpers')
+        elif op == 'iterate_mutating':
+            # the array changes while a loop over its rows is under way: like a list of rows, the loop sees the rows as they
+            # are when it gets to them, and rows appended meanwhile as well
+            it = iter(a)
+            model_it = iter(rows)
+            seen, want = [], []
+            k0 = t.draw(n)
+            for _ in range(k0):
+                seen.append(np.array(next(it)))
+                want.append(np.array(next(model_it)))
+            what = t.draw(3)
+            if what == 0 and k0 < n:
+                i = t.irange(k0, n - 1)
+                v = V.take((lens[i],) + es)
+                self.sut(a.__setitem__, i, v.copy())
+                rows[i] = v.copy()
+                self.hist.append(('iterate_mutating', k0, 'replace', i))
+            elif what == 1:
+                b = V.take((t.irange(1, 3),) + es)
+                self.sut(a.append, [b.copy()])
+                rows.append(b.copy())
+                self.hist.append(('iterate_mutating', k0, 'append'))
+            else:
+                i = t.draw(n)
+                j = t.draw(lens[i])
+                v = V.take(()) if self.edim is None else V.take((self.edim,))
+                self.sut(a.__setitem__, (i, j), v)
+                rows[i][j] = v
+                self.hist.append(('iterate_mutating', k0, 'elem', i, j))
+            for x in it:
+                seen.append(np.array(x))
+                if len(seen) > 50:
+                    break
+            for x in model_it:
+                want.append(np.array(x))
+            if len(seen) != len(want) or any(not eqv(x, y) for x, y in zip(seen, want)):
+                self.bad('iteration_differs', 'a loop over the rows during which the array changed saw %s, a list of rows shows %s' %
+                         ([np.asarray(x).tolist() for x in seen], [np.asarray(x).tolist() for x in want]))
+            self.ctx.hit('op_iterate_mutating')
+        elif op == 'stale_mask':
+            # a comparison result kept from earlier is used as an index after the array changed its row lengths: it is a ragged
+            # array of booleans with its OWN layout, so cell (r, c) of the mask addresses cell (r, c) of the array - where all of
+            # its True cells still exist.  An implementation may also refuse a mask of another layout (then nothing may change).
+            if self.kept_mask is None or t.flag(1, 3):
+                flat = np.concatenate(rows)
+                thr = flat[t.draw(len(flat))]
+                self.kept_mask = (self.sut(a.__gt__, thr), [r > thr for r in rows])
+                self.hist.append(('stale_mask', 'taken', float(thr)))
+            else:
+                mobj, mrows = self.kept_mask
+                if len(mrows) == n and self.edim is None and t.flag():
+                    # two rows trade lengths: the layout differs from the mask's, the total number of elements does not
+                    pairs = [(i, j) for i in range(n) for j in range(i + 1, n) if lens[i] != lens[j] and len(mrows[i]) == lens[i] and len(mrows[j]) == lens[j]
+                             and not mrows[i][min(lens[i], lens[j]):].any() and not mrows[j][min(lens[i], lens[j]):].any()]
+                    if pairs:
+                        i, j = pairs[t.draw(len(pairs))]
+                        for x, L in ((i, lens[j]), (j, lens[i])):
+                            v = V.take((L,))
+                            self.sut(a.__setitem__, x, v.copy())
+                            rows[x] = v.copy()
+                        lens = [len(r) for r in rows]
+                        self.ctx.hit('rows_traded_lengths')
+                cells = [(r_, int(c_)) for r_, mr in enumerate(mrows) for c_ in np.where(mr)[0]]
+                ok = bool(cells) and all(r_ < n and c_ < lens[r_] for r_, c_ in cells)
+                self.hist.append(('stale_mask', 'used', len(cells), ok))
+                if ok:
+                    if [len(mr) for mr in mrows] != lens:
+                        self.ctx.hit('mask_of_another_layout')
+                    try:
+                        got = a[mobj]
+                    except Exception:       # noqa: refusing a mask of another layout is legitimate
+                        got = None
+                        self.ctx.count('mask_of_another_layout_refused')
+                    if got is not None:
+                        want = np.array([rows[r_][c_] for r_, c_ in cells])
+                        if not eqv(np.asarray(got).reshape(-1), want.reshape(-1)):
+                            self.bad('mask_read_differs', 'a[mask kept from earlier] = %s, cells (row, column) of the mask give %s' %
+                                     (np.asarray(got).tolist(), want.tolist()))
+                        v = V.take(())
+                        self.sut(a.__setitem__, mobj, v)
+                        for r_, c_ in cells:
+                            rows[r_][c_] = v
+            self.ctx.hit('op_stale_mask')
+        elif op == 'rejected_write':
+            # a row assignment the array cannot take (a bare number where a row is expected): whatever is raised, nothing changes
+            i = t.draw(n)
+            self.hist.append(('rejected_write', i))
+            if n < 2:
+                return          # with a single row there is nothing the value could be inconsistent with
+            exc = self.ctx.expect_raise(a.__setitem__, i, V.take(()).item())
+            if exc is None:
+                # accepted by this implementation: what that means is not defined by the model - the history ends here
+                self.ctx.count('bare_number_row_accepted')
+                self.stop = True
+                return
+            self.ctx.hit('op_rejected_write')
         elif op == 'child_write':
             # a row selection is an array of its own: the caller writes into it, then into the parent; neither sees the other's write
             kind = t.draw(4)
@@ -639,7 +745,8 @@ class Machine:
             self.ctx.hit('env_write_through')
         if op not in ('binary', 'compare', 'divlike', 'bitwise', 'reads2d', 'helpers'):
             self.mutations += 1
-        if op not in ('append', 'aug', 'binary', 'write_through', 'child_write', 'compare', 'divlike', 'bitwise', 'reads2d', 'writes2d', 'helpers'):
+        if op not in ('append', 'aug', 'binary', 'write_through', 'child_write', 'compare', 'divlike', 'bitwise', 'reads2d', 'writes2d', 'helpers',
+                      'iterate_mutating', 'rejected_write', 'stale_mask'):
             self.ctx.hit('op_' + op)
         nl = [len(r) for r in self.rows]
         now_rect = len(set(nl)) == 1
@@ -656,6 +763,8 @@ def scenario(ctx):
     n_ops = ctx.tape.irange(1, 30 if ctx.tape.flag(1, 3) else 8)
     for _ in range(n_ops):
         m.step()
+        if m.stop:
+            break
     ctx.scenario['history'] = [str(h) for h in m.hist[:40]]
     ctx.fp(tuple(map(str, m.hist)))
     if m.mutations >= 2:
